@@ -483,8 +483,15 @@ func scanDecIdx(c *core.Ctx) []ob {
 			ast.Inspect(is.Cond, func(y ast.Node) bool {
 				if call, ok := y.(*ast.CallExpr); ok {
 					if id, ok := unparen(call.Fun).(*ast.Ident); ok && id.Name == "len" && len(call.Args) == 1 {
-						if r := rootIdent(call.Args[0]); r != nil && info.Uses[r] == recv {
-							guards = append(guards, is)
+						if r := rootIdent(call.Args[0]); r != nil {
+							if info.Uses[r] == recv {
+								guards = append(guards, is)
+							} else if d := singleDef(info, fd, info.Uses[r]); d != nil {
+								// a local view of the receiver's slice (`if ct := evk.Value; len(ct) == 0 …`)
+								if rr := rootIdent(d); rr != nil && info.Uses[rr] == recv {
+									guards = append(guards, is)
+								}
+							}
 						}
 					}
 				}
